@@ -269,6 +269,9 @@ def run(ctx):
         "read-phase term not exercised by synthetic Coverage objects (no Sample attached)",
         "optimality on shipped-gene instances with noise is not enumerated (assignment space too large for TLC)",
     ]
+    # design level: noise-free evidence of every refinement of every small major call: the planted assignment is
+    # admissible at score 0, nothing scores below, zero-score assignments carry the planted variants, the fill keeps the rules
+    ctx.mc("mc/MC_MinorModel", label="MC_MinorModel(planted refinements)", workers=4)
     tasks = []
     for j in range(12 if quick else 60):
         tasks.append(("toy", rng.choice(["hg19", "hg38"]), rng.randrange(1 << 30), 60 if quick else 150, "noisy"))
